@@ -8,7 +8,7 @@ def replay(mod, prop, path):
     art = json.load(open(path))
     from mc import pairs
 
-    if hasattr(mod, "replay") and not str(art.get("system", "")).startswith(pairs.PREFIX):
+    if hasattr(mod, "replay") and ":" not in str(art.get("system", "")):
         r = mod.replay(art)
         if r is not None:
             return r
